@@ -5,15 +5,21 @@ package metric
 // Public API only.
 //   hist <gen> <limit> <tps> <insts> <views> | m j set x | o j set x | k | c r … => <r>@<metric>;<metric> …
 // limit: "-" (unset) or the text of the environment variable; tps: one of d|c per reader;
-// insts: comma list <i|f><kind>, kind c,u,h,g (sync) C,U,G (observable), instrument j is named "i<j>";
-// views: "-" or comma list pat/kind/rename/filter/agg: pat - | n<j> | s ("*") | q ("i?"); kind - | kind char;
+// insts: comma list <i|f><kind>[:<scope><name><desc><unit>], kind c,u,h,g (sync) C,U,G (observable); without the suffix
+//   instrument j is named "i<j>" and created by meter 0 ("c12"); with it (four digits) it is named "i<name>", has
+//   description "d<desc>" / unit "u<unit>" (0 = none) and is created by meter <scope>: 0 = c12, 1 = lib1/v1/s1,
+//   2 = lib1/v2/s1, 3 = lib2/v1/s2 (name/version/schema URL);
+// views: "-" or comma list pat/kind/rename/filter/agg[/crit]: pat - | n<j> | s ("*") | q ("i?"); kind - | kind char;
+//   crit - | letters D U N V S each followed by one digit: description, unit, scope name (1 c12, 2 lib1, 3 lib2),
+//   scope version (1 v1, 2 v2), scope schema URL (1 s1, 2 s2);
 //   rename - | r<k> | R<k>; filter - | a<key digits> (allow list) | d<key digits> (deny list);
 //   agg - | D default | x drop | s sum | l last value | e explicit [0,10,100] | b base-2 exponential.
 // set: "e" (empty) or k:v.k:v sorted by key id; key ids 1..4 = "a".."d", 9 = "otel.metric.overflow";
 //   value code 0/1 = Bool false/true, n+2 = Int64 n.
 // ops: m = synchronous measurement, o = observation replayed by the instrument's callback at every collection
 //   until k clears the observations, c r = Collect on reader r.
-// metric: <name>~<type>~<set>=<val>+… ; metrics in reported order, points sorted by the canonical set text.
+// metric: <name>[#<scope>]~<type>~<set>=<val>+… ; scopes sorted by id, metrics of a scope in reported order, points
+//   sorted by the canonical set text.
 // float64 instruments are driven with x/256 and print value*256.
 
 import (
@@ -157,7 +163,52 @@ func c12Metric[N int64 | float64](d metricdata.Aggregation, n string) (string, [
 	return "", nil, false
 }
 
-type c12View struct{ pat, kind, rename, filter, agg string }
+type c12View struct{ pat, kind, rename, filter, agg, crit string }
+
+var c12ScopeAttrs = [][3]int{{1, 0, 0}, {2, 1, 1}, {2, 2, 1}, {3, 1, 2}}
+var c12ScopeNames = []string{"", "c12", "lib1", "lib2"}
+var c12Versions = []string{"", "v1", "v2"}
+var c12Schemas = []string{"", "s1", "s2"}
+
+func c12Tag(prefix string, id int) string {
+	if id == 0 {
+		return ""
+	}
+	return prefix + strconv.Itoa(id)
+}
+
+func c12Opts[T any](du []metric.InstrumentOption) []T {
+	out := make([]T, 0, len(du))
+	for _, o := range du {
+		out = append(out, any(o).(T))
+	}
+	return out
+}
+
+type c12InstSpec struct {
+	float                   bool
+	kind                    byte
+	scope, name, desc, unit int
+}
+
+func c12ParseInst(tok string, j int) c12InstSpec {
+	is := c12InstSpec{float: tok[0] == 'f', kind: tok[1], name: j}
+	if len(tok) >= 7 && tok[2] == ':' {
+		is.scope, is.name, is.desc, is.unit = int(tok[3]-'0'), int(tok[4]-'0'), int(tok[5]-'0'), int(tok[6]-'0')
+	}
+	return is
+}
+
+func c12Crit(crit string) map[byte]int {
+	m := map[byte]int{}
+	if crit == "-" || crit == "" {
+		return m
+	}
+	for i := 0; i+1 < len(crit); i += 2 {
+		m[crit[i]] = int(crit[i+1] - '0')
+	}
+	return m
+}
 
 func c12KindOf(c byte) InstrumentKind {
 	switch c {
@@ -186,18 +237,30 @@ func c12ParseViews(s string) []c12View {
 	}
 	for _, p := range strings.Split(s, ",") {
 		f := strings.Split(p, "/")
-		if len(f) != 5 {
+		if len(f) == 5 {
+			f = append(f, "-")
+		}
+		if len(f) != 6 {
 			continue
 		}
-		vs = append(vs, c12View{f[0], f[1], f[2], f[3], f[4]})
+		vs = append(vs, c12View{f[0], f[1], f[2], f[3], f[4], f[5]})
 	}
 	return vs
 }
 
 // does the view's criteria match instrument j of kind k (generator side only: used to keep aggregations compatible)
-func (v c12View) matches(j int, k byte) bool {
-	if v.pat == "-" && v.kind == "-" {
+func (v c12View) matches(is c12InstSpec) bool {
+	j, k := is.name, is.kind
+	cr := c12Crit(v.crit)
+	if v.pat == "-" && v.kind == "-" && len(cr) == 0 {
 		return false
+	}
+	sa := c12ScopeAttrs[is.scope]
+	for c, want := range cr {
+		have := map[byte]int{'D': is.desc, 'U': is.unit, 'N': sa[0], 'V': sa[1], 'S': sa[2]}[c]
+		if want != 0 && want != have {
+			return false
+		}
 	}
 	if (v.pat == "s" || v.pat == "q") && v.rename != "-" {
 		return false
@@ -224,6 +287,12 @@ func (v c12View) build() View {
 	if v.kind != "-" {
 		crit.Kind = c12KindOf(v.kind[0])
 	}
+	cr := c12Crit(v.crit)
+	crit.Description = c12Tag("d", cr['D'])
+	crit.Unit = c12Tag("u", cr['U'])
+	crit.Scope.Name = c12ScopeNames[cr['N']]
+	crit.Scope.Version = c12Versions[cr['V']]
+	crit.Scope.SchemaURL = c12Schemas[cr['S']]
 	var mask Stream
 	if v.rename != "-" {
 		mask.Name = v.rename
@@ -296,15 +365,30 @@ func TestVerifC12Views(t *testing.T) {
 		opts = append(opts, WithView(views...))
 		mp := NewMeterProvider(opts...)
 		defer mp.Shutdown(ctx)
-		m := mp.Meter("c12")
+		meters := map[int]metric.Meter{}
+		scopeID := map[string]int{}
+		for sc, sa := range c12ScopeAttrs {
+			meters[sc] = mp.Meter(c12ScopeNames[sa[0]], metric.WithInstrumentationVersion(c12Versions[sa[1]]),
+				metric.WithSchemaURL(c12Schemas[sa[2]]))
+			scopeID[c12ScopeNames[sa[0]]+"|"+c12Versions[sa[1]]+"|"+c12Schemas[sa[2]]] = sc
+		}
 		var cur []c12Obs
 		insts := strings.Split(istr, ",")
 		recs := make([]func(a attribute.Set, v int64), len(insts))
 		async := make([]bool, len(insts))
 		for j, ic := range insts {
 			j := j
-			name := fmt.Sprintf("i%d", j)
-			float, kind := ic[0] == 'f', ic[1]
+			spec := c12ParseInst(ic, j)
+			name := fmt.Sprintf("i%d", spec.name)
+			float, kind := spec.float, spec.kind
+			m := meters[spec.scope]
+			du := []metric.InstrumentOption{}
+			if spec.desc != 0 {
+				du = append(du, metric.WithDescription(c12Tag("d", spec.desc)))
+			}
+			if spec.unit != 0 {
+				du = append(du, metric.WithUnit(c12Tag("u", spec.unit)))
+			}
 			icb := metric.WithInt64Callback(func(_ context.Context, o metric.Int64Observer) error {
 				for _, ob := range cur {
 					if ob.j == j {
@@ -323,47 +407,47 @@ func TestVerifC12Views(t *testing.T) {
 			})
 			switch {
 			case kind == 'c' && !float:
-				c, _ := m.Int64Counter(name)
+				c, _ := m.Int64Counter(name, c12Opts[metric.Int64CounterOption](du)...)
 				recs[j] = func(a attribute.Set, v int64) { c.Add(ctx, v, metric.WithAttributeSet(a)) }
 			case kind == 'c':
-				c, _ := m.Float64Counter(name)
+				c, _ := m.Float64Counter(name, c12Opts[metric.Float64CounterOption](du)...)
 				recs[j] = func(a attribute.Set, v int64) { c.Add(ctx, float64(v)/256, metric.WithAttributeSet(a)) }
 			case kind == 'u' && !float:
-				c, _ := m.Int64UpDownCounter(name)
+				c, _ := m.Int64UpDownCounter(name, c12Opts[metric.Int64UpDownCounterOption](du)...)
 				recs[j] = func(a attribute.Set, v int64) { c.Add(ctx, v, metric.WithAttributeSet(a)) }
 			case kind == 'u':
-				c, _ := m.Float64UpDownCounter(name)
+				c, _ := m.Float64UpDownCounter(name, c12Opts[metric.Float64UpDownCounterOption](du)...)
 				recs[j] = func(a attribute.Set, v int64) { c.Add(ctx, float64(v)/256, metric.WithAttributeSet(a)) }
 			case kind == 'h' && !float:
-				c, _ := m.Int64Histogram(name)
+				c, _ := m.Int64Histogram(name, c12Opts[metric.Int64HistogramOption](du)...)
 				recs[j] = func(a attribute.Set, v int64) { c.Record(ctx, v, metric.WithAttributeSet(a)) }
 			case kind == 'h':
-				c, _ := m.Float64Histogram(name)
+				c, _ := m.Float64Histogram(name, c12Opts[metric.Float64HistogramOption](du)...)
 				recs[j] = func(a attribute.Set, v int64) { c.Record(ctx, float64(v)/256, metric.WithAttributeSet(a)) }
 			case kind == 'g' && !float:
-				c, _ := m.Int64Gauge(name)
+				c, _ := m.Int64Gauge(name, c12Opts[metric.Int64GaugeOption](du)...)
 				recs[j] = func(a attribute.Set, v int64) { c.Record(ctx, v, metric.WithAttributeSet(a)) }
 			case kind == 'g':
-				c, _ := m.Float64Gauge(name)
+				c, _ := m.Float64Gauge(name, c12Opts[metric.Float64GaugeOption](du)...)
 				recs[j] = func(a attribute.Set, v int64) { c.Record(ctx, float64(v)/256, metric.WithAttributeSet(a)) }
 			case kind == 'C' && !float:
 				async[j] = true
-				_, _ = m.Int64ObservableCounter(name, icb)
+				_, _ = m.Int64ObservableCounter(name, append(c12Opts[metric.Int64ObservableCounterOption](du), icb)...)
 			case kind == 'C':
 				async[j] = true
-				_, _ = m.Float64ObservableCounter(name, fcb)
+				_, _ = m.Float64ObservableCounter(name, append(c12Opts[metric.Float64ObservableCounterOption](du), fcb)...)
 			case kind == 'U' && !float:
 				async[j] = true
-				_, _ = m.Int64ObservableUpDownCounter(name, icb)
+				_, _ = m.Int64ObservableUpDownCounter(name, append(c12Opts[metric.Int64ObservableUpDownCounterOption](du), icb)...)
 			case kind == 'U':
 				async[j] = true
-				_, _ = m.Float64ObservableUpDownCounter(name, fcb)
+				_, _ = m.Float64ObservableUpDownCounter(name, append(c12Opts[metric.Float64ObservableUpDownCounterOption](du), fcb)...)
 			case kind == 'G' && !float:
 				async[j] = true
-				_, _ = m.Int64ObservableGauge(name, icb)
+				_, _ = m.Int64ObservableGauge(name, append(c12Opts[metric.Int64ObservableGaugeOption](du), icb)...)
 			case kind == 'G':
 				async[j] = true
-				_, _ = m.Float64ObservableGauge(name, fcb)
+				_, _ = m.Float64ObservableGauge(name, append(c12Opts[metric.Float64ObservableGaugeOption](du), fcb)...)
 			}
 		}
 		var records []string
@@ -393,18 +477,30 @@ func TestVerifC12Views(t *testing.T) {
 				if err != nil {
 					ms = append(ms, "err")
 				}
-				for _, sm := range rm.ScopeMetrics {
+				sid := func(sm metricdata.ScopeMetrics) int {
+					if id, ok := scopeID[sm.Scope.Name+"|"+sm.Scope.Version+"|"+sm.Scope.SchemaURL]; ok {
+						return id
+					}
+					return 9
+				}
+				sms := append([]metricdata.ScopeMetrics(nil), rm.ScopeMetrics...)
+				sort.SliceStable(sms, func(a, b int) bool { return sid(sms[a]) < sid(sms[b]) })
+				for _, sm := range sms {
+					suffix := ""
+					if id := sid(sm); id != 0 {
+						suffix = "#" + strconv.Itoa(id)
+					}
 					for _, mt := range sm.Metrics {
 						ty, pts, ok := c12Metric[int64](mt.Data, "i")
 						if !ok {
 							ty, pts, ok = c12Metric[float64](mt.Data, "f")
 						}
 						if !ok {
-							ms = append(ms, mt.Name+"~?~")
+							ms = append(ms, mt.Name+suffix+"~?~")
 							continue
 						}
 						sort.Strings(pts)
-						ms = append(ms, mt.Name+"~"+ty+"~"+strings.Join(pts, "+"))
+						ms = append(ms, mt.Name+suffix+"~"+ty+"~"+strings.Join(pts, "+"))
 					}
 				}
 				records = append(records, fmt.Sprintf("%d@%s", r, strings.Join(ms, ";")))
@@ -498,6 +594,35 @@ func TestVerifC12Views(t *testing.T) {
 			is = append(is, string([]byte{"if"[r.Intn(2)], "cuhgCUGcuh"[r.Intn(10)]}))
 		}
 		var vs []string
+		if gen == "scopes" { // 2-3 meters with overlapping instrument names; descriptions and units vary
+			if ni < 2 {
+				ni = 2 + r.Intn(3)
+				is = nil
+				for j := 0; j < ni; j++ {
+					is = append(is, string([]byte{"if"[r.Intn(2)], "cuhgCUGcuh"[r.Intn(10)]}))
+				}
+			}
+			scopes := [][]int{{1, 3}, {1, 2}, {0, 1, 3}, {1, 2, 3}, {2, 3}}[r.Intn(5)]
+			used := map[[2]int]bool{}
+			for j := 0; j < ni; j++ {
+				sc, nm := scopes[r.Intn(len(scopes))], r.Intn(2)
+				for tries := 0; used[[2]int{sc, nm}] && tries < 20; tries++ {
+					sc, nm = scopes[r.Intn(len(scopes))], r.Intn(3)
+				}
+				if used[[2]int{sc, nm}] { // names stay unique within a meter
+					nm = 3 + j
+				}
+				used[[2]int{sc, nm}] = true
+				d, u := 0, 0
+				if r.Intn(3) == 0 {
+					d = 1 + r.Intn(2)
+				}
+				if r.Intn(3) == 0 {
+					u = 1 + r.Intn(2)
+				}
+				is[j] = fmt.Sprintf("%s:%d%d%d%d", is[j][:2], sc, nm, d, u)
+			}
+		}
 		if gen == "shared" { // two instruments of one type renamed to the same (case-normalised) stream
 			if ni < 2 {
 				ni = 2
@@ -513,10 +638,36 @@ func TestVerifC12Views(t *testing.T) {
 			nv = 1 + r.Intn(4)
 		}
 		for k := 0; k < nv; k++ {
-			v := c12View{"-", "-", "-", "-", "-"}
+			v := c12View{"-", "-", "-", "-", "-", "-"}
+			if gen == "scopes" && r.Intn(4) != 0 { // criteria taken from an existing instrument, sometimes off by one
+				sp := c12ParseInst(is[r.Intn(ni)], 0)
+				sa := c12ScopeAttrs[sp.scope]
+				cr := ""
+				if r.Intn(2) == 0 {
+					cr += "N" + strconv.Itoa(sa[0])
+				}
+				if r.Intn(4) == 0 && sa[1] != 0 {
+					cr += "V" + strconv.Itoa(sa[1])
+				}
+				if r.Intn(5) == 0 && sa[2] != 0 {
+					cr += "S" + strconv.Itoa(sa[2])
+				}
+				if r.Intn(5) == 0 {
+					cr += "D" + strconv.Itoa(1+r.Intn(2))
+				}
+				if r.Intn(5) == 0 {
+					cr += "U" + strconv.Itoa(1+r.Intn(2))
+				}
+				if r.Intn(12) == 0 {
+					cr = []string{"N2", "N3", "V2", "S2", "N1"}[r.Intn(5)]
+				}
+				if cr != "" {
+					v.crit = cr
+				}
+			}
 			switch x := r.Intn(10); {
 			case x < 5:
-				v.pat = "n" + strconv.Itoa(r.Intn(ni))
+				v.pat = "n" + strconv.Itoa(c12ParseInst(is[r.Intn(ni)], r.Intn(ni)).name)
 			case x < 7:
 				v.pat = "s"
 			case x < 8:
@@ -545,7 +696,7 @@ func TestVerifC12Views(t *testing.T) {
 			if r.Intn(2) == 0 {
 				v.agg = string("DxxslebbeD"[r.Intn(10)])
 				for j := 0; j < ni; j++ {
-					if !v.matches(j, is[j][1]) {
+					if !v.matches(c12ParseInst(is[j], j)) {
 						continue
 					}
 					gauge := is[j][1] == 'g' || is[j][1] == 'G'
@@ -554,7 +705,11 @@ func TestVerifC12Views(t *testing.T) {
 					}
 				}
 			}
-			vs = append(vs, strings.Join([]string{v.pat, v.kind, v.rename, v.filter, v.agg}, "/"))
+			if v.crit == "-" {
+				vs = append(vs, strings.Join([]string{v.pat, v.kind, v.rename, v.filter, v.agg}, "/"))
+			} else {
+				vs = append(vs, strings.Join([]string{v.pat, v.kind, v.rename, v.filter, v.agg, v.crit}, "/"))
+			}
 		}
 		vstr := "-"
 		if len(vs) > 0 {
@@ -677,6 +832,8 @@ func TestVerifC12Views(t *testing.T) {
 			genCase("ovf-first")
 		} else if i%16 == 3 {
 			genCase("shared")
+		} else if i%8 == 5 {
+			genCase("scopes")
 		} else {
 			genCase("rnd")
 		}
